@@ -551,6 +551,12 @@ def apply_body_rules(btxt, it, ctx, key, header_text=""):
         btxt = re.sub(r"\.to_be_bytes\(\)", ".vp_to_be_bytes()", btxt)
         log("R3", "%d x .to_be_bytes() -> .vp_to_be_bytes()" % n)
 
+    # R3 (read side): uN::from_be_bytes(X) -> uN::vp_from_be_bytes(X)
+    n = len(re.findall(r"\b(u16|u32|u64)::from_be_bytes\(", btxt))
+    if n:
+        btxt = re.sub(r"\b(u16|u32|u64)::from_be_bytes\(", r"\1::vp_from_be_bytes(", btxt)
+        log("R3", "%d x uN::from_be_bytes( -> uN::vp_from_be_bytes(" % n)
+
     # R4: RECV.try_into().unwrap() / .expect("..")
     while True:
         toks = lex(btxt)
@@ -572,7 +578,10 @@ def apply_body_rules(btxt, it, ctx, key, header_text=""):
         recv = text_of(toks[idx[rs]:idx[hit]]).strip()
         ret_is_ref = bool(re.search(r"->\s*(\(\s*\w+\s*:\s*)?&", header_text))
         plain = re.fullmatch(r"\w+", recv) is not None
-        if plain:
+        by_value = rs >= 2 and s[rs - 1].text == "(" and s[rs - 2].text == "vp_from_be_bytes"
+        if by_value:
+            new = ("vp_to_array(%s)" if plain else "vp_to_array(&%s)") % recv   # the array is consumed by value
+        elif plain:
             new = "vp_to_array_ref(%s)" % recv
         elif ret_is_ref:
             new = "vp_to_array_ref(&%s)" % recv
